@@ -343,6 +343,14 @@ pub fn strategy_knobs(s: &str, r: &mut Rng, num_challenges: usize) -> AdversaryK
         "pow-override" => { k.pow_witness_override = Some(if r.coin() { r.below(4) } else { r.next_u64() % P }); k.lenient_trim = true; }
         "sldc-shift" => { k.sldc_shift = true; k.lenient_trim = true; }
         // the constant that balances the running sums enters at a given row (any row of the table's region)
+        // the permutation product is closed by a factor that enters at (row, position): "z-jump@<row>.<k>"
+        j if j.starts_with("z-jump@") => {
+            let mut it = j["z-jump@".len()..].split('.');
+            let row: usize = it.next().unwrap().parse().unwrap();
+            let pos: usize = it.next().unwrap().parse().unwrap();
+            k.zpp_jump = Some((row, pos));
+            k.lenient_trim = true;
+        }
         j if j.starts_with("sldc-jump@") => { k.sldc_jump_row = Some(j["sldc-jump@".len()..].parse().unwrap()); k.lenient_trim = true; }
         _ => unreachable!(),
     }
@@ -459,6 +467,25 @@ impl<'a> Ctx<'a> {
                     self.dumps_left -= 1;
                     self.lines += dump_for_model(w, self.circ, &pr, out == "ACCEPTED");
                 }
+            }
+        }
+        // a violated copy constraint with the permutation product closed by a factor that enters at a chosen
+        // (row, partial product): every relation of the running product holds except the one defining that
+        // position - the honest algorithm leaves the defect at the very last relation only
+        if viol.starts_with("copy:") {
+            let np = self.circ.data.common.num_partial_products;
+            let n = self.circ.n;
+            let crow = cor.cells.first().or(cor.presets.first()).or(cor.classes.first()).map(|c| c.0).unwrap_or(0);
+            let mut spots = vec![(crow, np / 2), (0usize, 0usize), (crow, np), (r.below(n as u64) as usize, r.below(np as u64 + 1) as usize)];
+            if self.all_strategies { spots.extend([(crow, 0), (n - 1, np), (n - 1, np.saturating_sub(1)), (n / 2, 1.min(np))]); }
+            spots.sort(); spots.dedup();
+            for (row, pos) in spots {
+                let s = format!("z-jump@{row}.{pos}");
+                let k = strategy_knobs(&s, r, nch);
+                let (out, det, _) = adversarial_prove_full(self.circ, part.clone(), cor, k);
+                writeln!(w, "c02 {} {} {} {} = {} # {} violated={} outcome={} {} knobs=zpp:{:?}", self.pi, self.cname, class, s, (out != "ACCEPTED") as u8,
+                         cor.describe(), viol, out, det, k.zpp_jump).unwrap();
+                self.lines += 1;
             }
         }
         true
